@@ -309,25 +309,28 @@ def run(chk):
                     r4.fail("%s:mutates-nodes" % f.qualname, "%s mutates the hasher's node list directly (`%s`)" % (f.qualname, node_src(n)), fn=f, node=n)
     add = prog.method(rv, "add_node")
     rem = prog.method(rv, "remove_node")
-    for f, op, guard_in in ((add, "append", False), (rem, "remove", True)):
+    for f, op in ((add, "append"), (rem, "remove")):
         muts = [n for n in walk_no_nested(f.node) if isinstance(n, ast.Call) and isinstance(n.func, ast.Attribute) and is_self_attr(n.func.value, "nodes")]
         other_state = [n for n in walk_no_nested(f.node) if isinstance(n, (ast.Assign, ast.AugAssign, ast.Delete)) and any(is_self_attr(x) or (isinstance(x, ast.Subscript)) for t in (n.targets if not isinstance(n, ast.AugAssign) else [n.target]) for x in ast.walk(t))]
-        if len(muts) != 1 or muts[0].func.attr != op or other_state:
-            raise AnalysisError("C11.R4: %s mutates the rotation in a way this rule has no model for (%s%s); the set-like behaviour of add/remove cannot be decided structurally" % (f.qualname, [node_src(m) for m in muts], ", plus other state: " + node_src(other_state[0]) if other_state else ""))
-        m = muts[0]
+        if not muts or any(m_.func.attr != op for m_ in muts) or other_state:
+            raise AnalysisError("C11.R4: %s mutates the rotation in a way this rule has no model for (%s%s); the set-like behaviour of add/remove cannot be decided structurally" % (f.qualname, [node_src(m_) for m_ in muts], ", plus other state: " + node_src(other_state[0]) if other_state else ""))
         p = f.pos_params()[0].name
-        okarg = len(m.args) == 1 and isinstance(m.args[0], ast.Name) and m.args[0].id == p
-        g = None
-        for anc in _ancestors(m):
-            if isinstance(anc, ast.If):
-                g = anc
-                break
-        okg = False
-        if g is not None and isinstance(g.test, ast.Compare) and len(g.test.ops) == 1 and isinstance(g.test.left, ast.Name) and g.test.left.id == p and is_self_attr(g.test.comparators[0], "nodes"):
-            isin = isinstance(g.test.ops[0], ast.In)
-            in_body = any(y is m for b in g.body for y in ast.walk(b))
-            okg = (isin == guard_in) == in_body and isinstance(g.test.ops[0], (ast.In, ast.NotIn))
-        r4.expect(okarg and okg, "%s: self.nodes.%s(%s) under the membership test" % (f.name, op, p), "RendezvousHash.%s:membership-guard" % f.name, "%s does not %s exactly the given node under the %s test: the rotation stops behaving like a set (duplicates or wrong removals change placement with history)" % (f.qualname, op, "`in`" if guard_in else "`not in`"), fn=f, node=m)
+        for member in (True, False):
+            dom = MemberDomain(prog, f, member, p)
+            outs = Interp(dom, f.node, prog).run(Env({p: Opaque("the-node")}))
+            for s_, v, t in outs.of("ret"):
+                n_mut = s_.get("mut", 0)
+                if op == "append":
+                    want = 0 if member else 1
+                    r4.expect(n_mut == want and not dom.bad, "add_node(%s present): %d append(s)" % ("already" if member else "not yet", want), "RendezvousHash.add_node:membership-guard", "add_node performs %d append(s)%s when the node is %s in the rotation: the rotation stops behaving like a set (a duplicate entry survives one remove_node, so placement depends on history)" % (n_mut, " of something other than the given node" if dom.bad else "", "already" if member else "not yet"), fn=f, witness=fmt_trace(t))
+                else:
+                    r4.expect(member and n_mut == 1 and not dom.bad, "remove_node(present): removed once", "RendezvousHash.remove_node:membership-guard", "remove_node returns normally having performed %d removal(s)%s although the node is %s the rotation" % (n_mut, " of something other than the given node" if dom.bad else "", "in" if member else "not in"), fn=f, witness=fmt_trace(t))
+            for s_, e_, t in outs.of("exc"):
+                if op == "remove" and not member:
+                    r4.expect(s_.get("mut", 0) == 0, "remove_node(absent) raises without touching the rotation", "RendezvousHash.remove_node:mutates-before-raising", "remove_node raises for an absent node after already changing the rotation", fn=f, witness=fmt_trace(t))
+                elif e_.cls not in (None,) or True:
+                    if not (op == "remove" and member and e_.cls == "ValueError" and e_.origin and False):
+                        r4.fail("RendezvousHash.%s:raises" % f.name, "%s raises %s when the node is %s the rotation" % (f.qualname, e_, "in" if member else "not in"), fn=f, witness=fmt_trace(t))
 
     # ------------------------------------------------------------------ R5 canonical node names
     r5 = chk.rule("C11.R5", "node names are derived from the normalised (host, port) through one function (_make_client_key)")
@@ -362,6 +365,44 @@ def run(chk):
     chk.assume("scores are non-negative integers (C14.R1), so the initial best score -1 is below every score")
     chk.assume("node names are str (HashClient._make_client_key yields str), so str(node) is the identity")
     chk.assume("HRW theorem: the argmax of per-node scores that depend only on (node, key) moves a key only from a removed node / onto an added node")
+
+
+class MemberDomain(Domain):
+    """add_node / remove_node with the membership of the given node fixed."""
+
+    async_enabled = False
+    subscript_may_raise = False
+
+    def __init__(self, prog, fn, member, pname):
+        super().__init__(prog, fn)
+        self.member = member
+        self.pname = pname
+        self.bad = []
+
+    def attr_load(self, objval, node, state):
+        if is_self_attr(node, "nodes"):
+            return Opaque("nodes")
+        if objval == Opaque("nodes"):
+            return ("nodes-method", node.attr)
+        return TOP
+
+    def compare(self, node, op, l, r, state):
+        if isinstance(op, (ast.In, ast.NotIn)) and r == Opaque("nodes") and l == Opaque("the-node"):
+            return Const(self.member if isinstance(op, ast.In) else not self.member)
+        return super().compare(node, op, l, r, state)
+
+    def call(self, node, fval, args, kwargs, state):
+        if isinstance(fval, tuple) and fval and fval[0] == "nodes-method":
+            if fval[1] in ("append", "remove"):
+                if not args or args[0] != Opaque("the-node"):
+                    self.bad.append(node)
+                st = state.set("mut", state.get("mut", 0) + 1)
+                if fval[1] == "remove" and not self.member:
+                    return [("exc", Exc(ORD, "ValueError", node.lineno), state)]
+                return [("ok", NONE, st)]
+            if fval[1] in ("count", "index", "__contains__"):
+                return [("ok", TOP, state)]
+        return [("ok", TOP, state)]
 
 
 def _same_rank(dom, a, b):
